@@ -211,7 +211,7 @@ def bounded(tier, seed):
         chunks = [1, 2, 3] if tier == "thorough" else [1, 3]
         combos = []
         for c in chunks:
-            sizes = sorted({0, 1, c - 1, c, c + 1, 2 * c, 2 * c + 1} - {-1})
+            sizes = sorted({0, 1, c - 1, c, c + 1, 2 * c, 2 * c + 1, 3 * c, 3 * c + 1} - {-1})
             for size in sizes:
                 texts = c03.spec_texts(size, 4)
                 hdrs = [None] + ["bytes=" + t for t in texts]
@@ -222,6 +222,11 @@ def bounded(tier, seed):
                 triples = list(itertools.product(texts, repeat=3))
                 hdrs += ["bytes=" + ",".join(p) for p in rng.sample(triples, min(len(triples), 6 if tier == "quick" else 60))]
                 hdrs += ["bytes=", "items=0-1", "bytes=1-0"]
+                # always some genuine multi-part requests: parts that are whole chunks, one-byte parts, a part up to the end
+                if size >= 3 * c:
+                    hdrs += ["bytes=0-%d,%d-%d" % (c - 1, 2 * c, 3 * c - 1), "bytes=%d-%d,0-%d" % (2 * c, 3 * c - 1, c - 1)]
+                if size >= 3:
+                    hdrs += ["bytes=0-0,%d-%d" % (size - 1, size - 1), "bytes=0-0,-1", "bytes=0-0,2-"]
                 for h in hdrs:
                     combos.append((size, c, h))
         ifaces = [("wsgi", False), ("asgi", False), ("asgi", True)]
@@ -275,7 +280,7 @@ def bounded(tier, seed):
     finally:
         env.close()
     return {"evaluations": evals, "distinct_nontrivial": len(distinct), "failures": failures, "samples": samples,
-            "rule": "real temp files of sizes {0,1,c-1,c,c+1,2c,2c+1} for chunk sizes c in %s; Range headers: none, every single "
+            "rule": "real temp files of sizes {0,1,c-1,c,c+1,2c,2c+1,3c,3c+1} for chunk sizes c in %s (always incl. multi-part requests whose parts are whole chunks); Range headers: none, every single "
                     "spec over 0..size+2 (three forms), sampled pairs and triples, malformed ones; If-Range in "
                     "{absent, etag, date, junk}; GET and HEAD; WSGI, ASGI, ASGI+zero-copy; a few large files; non-trivial = "
                     "a satisfiable range request (206), counted distinct by the whole input tuple" % chunks,
